@@ -333,8 +333,21 @@ pub fn generate(thorough: bool, seed: u64, out: &mut dyn Write) {
     // --- sheets stored in a synthetic installation, read through GameData ----------------------
     let mut arng = Rng::new(seed, "C05-archive");
     sweep_sheets(&mut arng, out);
-    for i in 0..(if thorough { 4_000 } else { 160 }) {
+    // pages above 64 KiB, spread over the other archive cases (the contiguous shards stay balanced)
+    let mut big: Vec<String> = vec![];
+    big_sheets(&mut Rng::new(seed, "C05-bigpage"), if thorough { 60 } else { 4 }, &mut big);
+    let n = if thorough { 4_000 } else { 160 };
+    let per = n / big.len().max(1);
+    for i in 0..n {
         gen_sheets(&mut arng, i, out);
+        if (i + 1) % per == 0 {
+            if let Some(l) = big.pop() {
+                writeln!(out, "{}", l).unwrap();
+            }
+        }
+    }
+    for l in big {
+        writeln!(out, "{}", l).unwrap();
     }
 }
 
@@ -433,6 +446,67 @@ fn sweep_sheets(rng: &mut Rng, out: &mut dyn Write) {
                 .unwrap();
             }
         }
+    }
+}
+
+/// Page files above 64 KiB: the page is stored as a standard entry with so many blocks that the
+/// offsets in its block table exceed 2^16 (six and more 16000-byte blocks, or hundreds of small
+/// ones), raw / stored / fixed-Huffman; a few long string cells or more than a thousand rows.
+/// Rows from the first and the last blocks are read.
+fn big_sheets(rng: &mut Rng, n: usize, lines: &mut Vec<String>) {
+    for k in 0..n {
+        let name = match k % 3 { 0 => "BigPage".to_string(), 1 => format!("quest/{:03}/Big_{:05}", rng.below(40), rng.below(100000)), _ => "LongText".to_string() };
+        let hn = hex(name.as_bytes());
+        let lang = if k % 2 == 0 { 0 } else { rng.range(1, 7) };
+        let text = |rng: &mut Rng, len: usize| -> String {
+            let pat_len = rng.range(3, 200) as usize;
+            let pat: Vec<u8> = (0..pat_len).map(|_| b"etaoin shrdlu,.ETAOIN-0123456789"[rng.below(32) as usize]).collect();
+            hex(&(0..len).map(|i| if rng.chance(1, 50) { b'#' } else { pat[i % pat_len] }).collect::<Vec<u8>>())
+        };
+        // (string, u16, two packed bools) as in the sweep above
+        let (ids, rows): (Vec<u32>, Vec<String>) = match k % 4 {
+            0 | 1 => {
+                // few rows, long cells: 7..12 strings of 9000..14000 bytes
+                let m = rng.range(7, 12) as u32;
+                let ids: Vec<u32> = (0..m).map(|i| 500 + i * 3).collect();
+                let rows = ids.iter().map(|id| { let len = rng.range(9000, 14000) as usize; format!("{}=s:{},u16:{},b:{},b:{}", id, text(rng, len), rng.below(65536), rng.below(2), rng.below(2)) }).collect();
+                (ids, rows)
+            }
+            _ => {
+                // many rows: 1100..1600 rows of 30..90-byte strings (the row offset table alone is ~10 KiB)
+                let m = rng.range(1100, 1600) as u32;
+                let ids: Vec<u32> = (0..m).map(|i| 500 + i).collect();
+                let rows = ids.iter().map(|id| { let len = rng.range(30, 90) as usize; format!("{}=s:{},u16:{},b:{},b:{}", id, text(rng, len), rng.below(65536), rng.below(2), rng.below(2)) }).collect();
+                (ids, rows)
+            }
+        };
+        let pattern = match k % 5 {
+            0 => "16000r".to_string(),
+            1 => "16000s_16000r_16000f".to_string(),
+            2 => "112r".to_string(),                       // one 128-byte unit per block: > 512 blocks
+            3 => format!("{}r_{}f_{}s", rng.range(1000, 3000), rng.range(200, 900), rng.range(3000, 9000)),
+            _ => "16000f".to_string(),
+        };
+        let kinds = rng.range(1, 3);
+        let chunk = rng.below(3);
+        let dat = rng.below(8);
+        let gap = rng.below(4);
+        let q: Vec<String> = [ids[0], ids[ids.len() - 1], ids[ids.len() / 2], ids[ids.len() - 2], 77]
+            .iter()
+            .map(|i| i.to_string())
+            .collect();
+        lines.push(format!(
+            "sheets {} 6666786976 n,s{}.{}.{}.0.{},h{} R 0.{}.0.0.9r 2 {}:7 S {} {}.{}.{}.0.20r 0 3 8 0:0,5:4,25:6,32:6 500:5000 {} 5000 P 0 {} {}.{}.{}.{}.{} {}",
+            rng.below(5),
+            hn, hn, lang, q.join("."),
+            hn,
+            kinds,
+            hn,
+            hn, chunk, kinds, rng.below(2),
+            lang,
+            lang, chunk, kinds, dat, gap, pattern,
+            rows.join(";")
+        ));
     }
 }
 
